@@ -110,8 +110,10 @@ func genCivil(t *rapid.T, withTime bool) m.Civil {
 	return c
 }
 
-func layoutHasTime(l string) bool    { return l != m.LayoutDate && l != m.LayoutDMY && l != m.LayoutYDM }
-func layoutHasSeconds(l string) bool { return l == m.LayoutDatetime || l == m.LayoutRFC3339 || l == m.LayoutSMH }
+func layoutHasTime(l string) bool { return l != m.LayoutDate && l != m.LayoutDMY && l != m.LayoutYDM }
+func layoutHasSeconds(l string) bool {
+	return l == m.LayoutDatetime || l == m.LayoutRFC3339 || l == m.LayoutSMH
+}
 
 var rejectExprs = []string{
 	`(version "10000")`, `(version "1.10000.2")`, `(version "1.2.10000")`, `(to_version "1.x.3")`, `(t_version "a")`, `(version "")`, `(version "1..2")`,
